@@ -4,7 +4,11 @@
   * a request the node answers with an error status (malformed, not allowed for the role, referring
     to a database or lock that must exist) leaves databases, positions, logs and locks unchanged:
     the four observation lines before the request equal the four after it;
-  * a request on an unknown path or with a method the endpoint does not have is answered 404 / 405.
+  * a request on an unknown path or with a method the endpoint does not have is answered 404 / 405;
+  * a node that is not primary (a connected replica, a node that knows no primary) never proceeds
+    with an import, a halt-lock grant, a forwarded transaction or a handoff: those requests are
+    not answered 200 there, and neither they nor a halt-lock release change anything (a release
+    of a lock the node does not hold is answered 200 and is a no-op: not an error by the property).
   The generator brackets every `http` line with `state`, `ltx`, `locks`, `dbs`.
 -/
 import LiteFSVerif.Driver.Util
@@ -17,6 +21,7 @@ structure St where
   before : List String := []      -- the four observations preceding the pending request
   pending : Option (String × String) := none   -- (op, obs) of the request whose after-image is being collected
   haltOut : Bool := false
+  role : String := ""             -- primary | replica | orphan (from the `open` line)
   dead : Bool := false
 
 def endpoints : List (String × List String) :=
@@ -27,9 +32,13 @@ def statusOf (obs : String) : Nat :=
   if obs.startsWith "status=" then (((obs.drop 7).toString.splitOn " ").headD "").toNat?.getD 0 else 0
 
 /-- verdict for a finished request given the observations before and after -/
-def judge (op obs : String) (before after : List String) : String :=
+def judge (role op obs : String) (before after : List String) : String :=
   let st := statusOf obs
-  if st ≥ 400 ∧ before.length == 4 ∧ after.length == 4 ∧ before ≠ after then
+  let path := (words op).getD 3 ""
+  if (role == "replica" || role == "orphan") ∧ ["/halt", "/import", "/tx", "/handoff"].contains path ∧
+      before.length == 4 ∧ after.length == 4 ∧ before ≠ after then
+    s!"FAIL a node that is not primary ({role}) changed its state on {path} (answered {st}): {op.take 120}"
+  else if st ≥ 400 ∧ before.length == 4 ∧ after.length == 4 ∧ before ≠ after then
     let what := if before.getD 3 "" ≠ after.getD 3 "" then "the set of databases"
       else if before.getD 2 "" ≠ after.getD 2 "" then "the lock table"
       else if before.getD 1 "" ≠ after.getD 1 "" then "the transaction log"
@@ -43,12 +52,13 @@ def check (st : St) (op obs : String) : St × String :=
   if st.dead then (st, "ok") else
   match f with
   | ["case", _] => ({}, "ok")
+  | ["open", role] => ({ st with role := role, window := [], pending := none }, "ok")
   | ["state"] | ["ltx"] | ["locks"] | ["dbs"] =>
     let w := st.window ++ [obs]
     (match st.pending with
      | some (pop, pobs) =>
        if w.length == 4 then
-         ({ st with window := w, pending := none }, judge pop pobs st.before w)
+         ({ st with window := w, pending := none }, judge st.role pop pobs st.before w)
        else ({ st with window := w }, "ok")
      | none => ({ st with window := if w.length > 4 then w.drop (w.length - 4) else w }, "ok"))
   | "http" :: _proto :: method :: path :: _ =>
@@ -62,6 +72,9 @@ def check (st : St) (op obs : String) : St × String :=
     else if path == "/stream" && method == "POST" && obs.startsWith "status=200" && !(words obs).contains "ready" then
       (st, s!"FAIL a stream answered 200 but broke before its ready frame: {op.take 100}") else
     let code := statusOf obs
+    if (st.role == "replica" || st.role == "orphan") && code == 200 &&
+        method == "POST" && ["/halt", "/import", "/tx", "/handoff"].contains path then
+      (st, s!"FAIL a node that is not primary ({st.role}) answered 200 to {method} {path}: {op.take 100}") else
     let st := if path == "/halt" && method == "POST" && code == 200 then { st with haltOut := true }
               else if path == "/halt" && method == "DELETE" && code == 200 then { st with haltOut := false } else st
     (match endpoints.lookup path with
